@@ -494,12 +494,35 @@ func rulePreallocAfterStore(c *Ctx, rule string) {
 		return
 	}
 	pre := calls(fn, "(*PoolController).preAllocateIP")
-	stores := calls(fn, "PoolInterface).Create", "PoolInterface).Update")
+	var stores []ssa.CallInstruction
+	for _, f := range fnsAround(fn, 2) {
+		stores = append(stores, callsLocal(f, "PoolInterface).Create", "PoolInterface).Update")...)
+	}
 	if len(pre) != 1 || len(stores) != 2 {
 		c.undecided(rule, fn, "preAllocateIP / Pools().Create / Update", nil, fmt.Sprintf("expected 1 preAllocateIP and 2 store calls, found %d and %d", len(pre), len(stores)))
 		return
 	}
 	for _, s := range stores {
+		if s.Parent() != fn {
+			// the write sits in a closure handed to a retry helper: the helper's error stands for the write's
+			var outer ssa.CallInstruction
+			for _, u := range closureUses(s.Parent()) {
+				if ci, ok := u.(ssa.CallInstruction); ok && ci.Parent() == fn {
+					outer = ci
+				}
+			}
+			if s.Parent().Parent() == nil {
+				// a named helper that creates / updates the object and returns the error
+				outer = siteIn(fn, s)
+			}
+			if outer == nil {
+				c.undecided(rule, fn, "store call inside a closure", s, "the closure is not passed to a call of CreateOrUpdate")
+				continue
+			}
+			bad, dec := onErrorNever(outer, toInstrs(pre))
+			c.ob(rule, fn, "no pre-allocation after a failed "+shortCallee(s)+" of the Pool object", s, dec && bad == nil, "preAllocateIP is unreachable from the err!=nil edge of "+shortCallee(outer)+", which runs the write")
+			continue
+		}
 		bad, dec := onErrorNever(s, toInstrs(pre))
 		c.ob(rule, fn, "no pre-allocation after a failed "+shortCallee(s)+" of the Pool object", s, dec && bad == nil, "preAllocateIP is unreachable from the err!=nil edge (the size pre-allocated must be the size stored)")
 	}
